@@ -30,6 +30,33 @@ CHECKS = {
  "C09": dict(technique="runtime monitoring: panic/crash monitor (catch_unwind + panic-location hook + parent-side death detection; thorough adds a plain-release pass and valgrind memcheck) over hostile token strings at all 24 entry points and Key::<N>::try_from",
    text="Any Ok/Err is accepted, a panic or process death is the violation. Exhaustive over decoded payload lengths 0..=400 per protocol x fill x footer, every prefix of authentic tokens, hex strings of every length 0..=200; seeded random and large inputs on top.",
    note="inputs above 3 MiB not driven; valgrind decides only on process death or invalid write/free below a library frame", ref="DESIGN.md section 4 C09"),
+ "C10": dict(technique="runtime monitoring: history monitor over recorded nonce fields of N builds under one key (pairwise distinctness, per-bit Hoeffding bound, constant-byte check) repeated in two separate processes with a cross-process comparison",
+   text="For v1-v4 local x {GenericBuilder, PasetoBuilder} x {fresh builder, one builder reused}: 4096 builds (thorough additionally 102400 from 16 threads) with identical claims/footer/assertion; nonces must be pairwise distinct, no byte position constant, every bit frequency within N/2 +- 5.3 sqrt(N); no nonce may occur in both of two separate processes.",
+   note="unpredictability proper is out of reach of observation: constants, counters, clocks, message-derived nonces, low entropy and fixed seeds are detected, a statistically clean but weak generator is not", ref="DESIGN.md section 4 C10"),
+ "C11": dict(technique="runtime monitoring: time-claim monitor (instant known by construction, renderings from the harness's own calendar arithmetic) over the full UTC-offset x fraction rendering space and a non-timestamp catalogue, against PasetoParser::default()",
+   text="Payloads with crafted exp are parsed by the default parser: every offset -23:59..+23:59 x 0-9 fraction digits x 13 instants on v4.local (thorough: all local protocols), sampled on the others; non-timestamps (numbers, booleans, arrays, objects, empty/near-miss strings) must be rejected; null/absent accepted. quick ~3.8e5 evaluations.",
+   note="clock margins 2 s / 60 s, stalled cases discarded not failed; leap seconds not driven", ref="DESIGN.md section 4 C11/C12"),
+ "C12": dict(technique="runtime monitoring: time-claim monitor mirrored for nbf plus the 3x3 (exp, nbf) grid, against PasetoParser::default()",
+   text="As C11 with the direction reversed (reject nbf >= now+60 s, accept <= now-2 s), non-timestamps rejected, and the independent combinations of (exp, nbf) in {past, future, absent} x 3 offsets on all 8 protocols. quick ~3.8e5 evaluations.",
+   note="clock margins 2 s / 60 s, stalled cases discarded not failed", ref="DESIGN.md section 4 C11/C12"),
+ "C13": dict(technique="runtime monitoring: reference-model monitor (property-level state machine of the batteries-included builder + clock bracket) over exhaustive call words and seeded random histories, including repeated builds",
+   text="All call words up to length 4 (thorough 6) over {set exp/nbf/iat/iss/custom, acknowledge, footer, assertion, build} on v4.local and random words to length 12 on all 8 protocols; every built token is read back and compared with the model: exp present iff not acknowledged, default exp = creation + 1 h exactly, default iat = nbf within the clock bracket, caller values present, nothing else.",
+   note="local payloads are read back with the library's decrypt (C01 covers that); 5 ms clock slack", ref="DESIGN.md section 4 C13"),
+ "C14": dict(technique="runtime monitoring: claim-map reference-model monitor (last write wins, remove deletes; serde_json equality) over seeded random set/remove histories with JSON trees, native Rust values and typed registered claims",
+   text="GenericBuilder histories of up to 12 set_claim/remove_claim operations are built and parsed back with a validator-free GenericParser on every protocol; the whole parsed object must equal the harness's model object. quick ~7.7e3 histories, thorough ~2.7e5.",
+   note="trusted base: serde_json equality and number formatting; value domain restricted as the property states", ref="DESIGN.md section 4 C14"),
+ "C15": dict(technique="runtime monitoring: expected-claim monitor (harness-side comparison of token claims S and expected set E, don't-care for int/float spelling) on GenericParser, PasetoParser::new() and ::default(), plus parser-reuse histories",
+   text="For random S the expectation sets {equal, subset, superset, one value changed, one key changed, null cases} are checked: accept iff no discrepancy, Missing(k) only for a missing k, the error names a failing claim; one parser processing 8 tokens in 4 orders must answer like a fresh parser. quick ~1.1e5 evaluations.",
+   note="int-vs-float spellings are don't-care; any failing claim may be the one reported", ref="DESIGN.md section 4 C15"),
+ "C16": dict(technique="runtime monitoring: validator call-log monitor (thread-local log written by harness validators, behaviour table) over authentic and forged tokens, registration routes and parser-reuse sequences",
+   text="Validators registered through validate_claim / extend_validation_claims on all parser kinds: no call for any forged token; for authentic tokens each validator sees the real value exactly once, Ok only if all ran and accept, Err only from a rejecting validator/expectation; sequences of mixed tokens through one parser. quick ~1e4 parses.",
+   note="validators are harness functions; forgeries are built by construction (wrong key/footer/assertion/header, bit flip, truncation)", ref="DESIGN.md section 4 C16"),
+ "C17": dict(technique="runtime monitoring: reference-model monitor (duplicate-key state machine) over exhaustive call words and seeded random histories up to length 40",
+   text="All words up to length 4 (thorough 5) over 9 claim keys + acknowledge + footer + build on v4.local, random words on all 8 protocols: after the first repeated key every build fails with the duplicate error naming a duplicated key; otherwise every build succeeds with the caller's values; exp-after-acknowledgement latitude encoded as two admissible outcomes.",
+   note="local payloads are read back with the library's decrypt (C01 covers that)", ref="DESIGN.md section 4 C17"),
+ "C18": dict(technique="runtime monitoring: constructor monitor (set-membership oracle; rendering generator; broad ISO 8601 date-prefix recogniser) over an exhaustive small key space, decorated reserved keys, random keys and the RFC 3339 rendering space",
+   text="CustomClaim::try_from on all 69 905 strings of length <= 4 over a 16-symbol alphabet x 3 forms, decorated variants x 6 forms, 2e4 random keys: fails iff the key is literally reserved. Time constructors accept every strict RFC 3339 rendering verbatim (also through a built token) and refuse strings that cannot start with an ISO 8601 date. quick ~3e5 evaluations.",
+   note="'must refuse' only outside a broad superset of ISO 8601 date prefixes", ref="DESIGN.md section 4 C18"),
  "C20": dict(technique="runtime monitoring: configuration-matrix runner that builds and EXECUTES a cfg-gated smoke program per feature set and checks the observed protocol/layer round-trip lines",
    text="Every listed feature configuration is built from the current tree (hooks off) and its binary executed; a configuration passes only if exactly the enabled protocols round-tripped at exactly the enabled layers. quick = 8 singletons + 28 pairs + full set x 3 layers + default + none (113); thorough = all 255 subsets x 3 layers + 2 (767, exhaustive over the documented feature lattice).",
    note="one fixed input per protocol/layer; debug profile; host target only; cargo's feature resolver is trusted", ref="DESIGN.md section 4 C20", engine="c20-matrix"),
